@@ -263,9 +263,9 @@ pub fn run(ctx: &mut Ctx) -> Result<(), Violation> {
         ctx.stage(&format!("all-state-pairs-x-all-ops-b{}", bits), true, r)?;
     }
 
-    if ctx.tier == Tier::Thorough {
-        // b = 3: all histories of depth <= 2 from sampled reachable states, every next op
-        let paths = reachable_paths(3, 2, 3);
+    {
+        // b = 3: every reference state pair reachable within 2 (thorough 3) operations, every next op
+        let paths = reachable_paths(3, 2, ctx.tier.pick(2, 3));
         let ops = all_ops(3, 2);
         let n = (paths.len() * ops.len()) as u64;
         let r = par_exhaustive(ctx, n, |i, st| {
@@ -275,10 +275,10 @@ pub fn run(ctx: &mut Ctx) -> Result<(), Violation> {
             record(3, &h, st);
             check_history(3, 2, &h)
         });
-        ctx.stage("b3-states-within-depth-3-x-all-ops", true, r)?;
+        ctx.stage("b3-states-within-short-depth-x-all-ops", true, r)?;
     }
 
-    let cases = ctx.tier.pick(5_000, 150_000);
+    let cases = ctx.tier.pick(40_000, 600_000);
     let r = par_random(ctx, "random", cases, 130, |tape, st| {
         let mut t = Tape::new(tape);
         let bits = 1 + t.choose(3);
